@@ -1,9 +1,9 @@
 SPECIFICATION Spec
 CONSTANTS
   MinVols = 1
-  MaxVols = 2
+  MaxVols = 1
   TTL = 2
-  Lives = {0, 2}
+  Lives = {2}
   Serial = {FALSE, TRUE}
   Trashing = {TRUE}
   WKinds = {"none", "put", "pull", "pull_any"}
@@ -12,9 +12,9 @@ CONSTANTS
   MaxActors = 3
   PreSet = {"none", "intact_old", "corrupt_old"}
   PreTrash = {"none", "live"}
-  ROSets = {{}, {2}}
+  ROSets = {{}}
   TickSizes = {2}
-  MaxTicks = 1
+  MaxTicks = 0
   Filter = "none"
   NoLockSet = {FALSE}
   TickInList = TRUE
